@@ -731,7 +731,10 @@ class C13Machine(TraceMachine):
 
 
 def run(ctx):
-    run_trace_machine(ctx, C13Machine, ctx.n(quick=100, thorough=1500), 15)
+    n = ctx.n(quick=100, thorough=1200)
+    if ctx.scratch_kind == "disk":  # sqlite on ext4 syncs: same budget, fewer histories
+        n = max(1, n // 3)
+    run_trace_machine(ctx, C13Machine, n, 15)
 
 
 def replay(case, ctx):
